@@ -21,7 +21,7 @@ SPEC = {
 
 
 def gen_cell(rng, d):
-    kind = rng.choice(["ortho", "lammps", "bigtilt", "general", "scaled"])
+    kind = rng.choice(["ortho", "lammps", "bigtilt", "general", "scaled", "sparse"])
     L = rng.uniform(0.5, 1000.0 if rng.random() < 0.2 else 20.0, size=d)
     if kind == "ortho":
         H = np.diag(L)
@@ -32,6 +32,13 @@ def gen_cell(rng, d):
         if d == 3:
             H[2, 0] = rng.uniform(-lim, lim) * L[0]
             H[2, 1] = rng.uniform(-lim, lim) * L[1]
+    elif kind == "sparse":
+        # a diagonal plus one or two off-diagonal entries ANYWHERE (a tilt above the diagonal: the primitive cell of a triangular lattice
+        # written as [[lx, b], [0, ly]]; a single xz or yz tilt): whether a cell is "orthogonal" cannot be read off one triangle
+        H = np.diag(L)
+        for _ in range(int(rng.integers(1, 3))):
+            i_, j_ = rng.choice(d, size=2, replace=False)
+            H[int(i_), int(j_)] = rng.uniform(-0.5, 0.5) * L[int(j_)]
     elif kind == "general":
         while True:
             H = rng.normal(size=(d, d)) * L[:, None]
